@@ -331,3 +331,155 @@ def seed_from_env(default: int = 1) -> int:
         return int(os.environ.get('VERIF_SEED', default))
     except ValueError:
         return default
+
+
+def parse_pair_list(out: str):
+    """Parse `= [(a, b); (c, d)] : list (nat * nat)`."""
+    m = re.search(r'=\s*\[(.*?)\]\s*:\s*list', out.replace('\n', ' '), flags=re.S)
+    if not m:
+        return None
+    body = m.group(1).strip()
+    if not body:
+        return []
+    return [tuple(int(x.replace('%nat', '')) for x in p.strip(' ()').split(',')) for p in body.split(';')]
+
+
+def tv_eval(prop: str, driver: str, case_texts: list[str], shard: int = 300, fn: str = 'bad_cases'):
+    """Evaluate `fn cases` for the given Coq case literals with the compiled driver module.
+    Returns (list of (case index, error code), problem or None)."""
+    ok, log, _ = coq_make([f'Driver/{driver}.vo'])
+    if not ok:
+        return [], 'driver build failed: ' + log[-1500:]
+    shards = [case_texts[i:i + shard] for i in range(0, len(case_texts), shard)]
+    texts = [f'From MpV Require Import Driver.{driver}.\nDefinition cases : list case :=\n[' +
+             ';\n '.join(sh) + f'].\nEval vm_compute in {fn} cases.\n' for sh in shards]
+    bad, problem = [], None
+    for k, (rc, so, se) in enumerate(coq_eval_cases(prop, texts)):
+        pairs = parse_pair_list(so) if rc == 0 else None
+        if pairs is None:
+            problem = f'cases shard {k} did not evaluate: {(so + se)[-800:]}'
+            continue
+        bad += [(k * shard + i, code) for i, code in pairs]
+    return bad, problem
+
+
+# ---------------------------------------------------------------------------------------------
+# generic check: audit + (impl runs -> trace validation / differential correspondence in Coq)
+#                + runtime oracle + evidence
+# ---------------------------------------------------------------------------------------------
+
+class Part:
+    """One correspondence component of a check.
+    module/args: impl-side generator `python -m module *args(seed, n, outfile[, corpus])` writing a JSON list
+    driver: Coq driver module (Driver/<driver>.v) with `case` and `bad_cases`
+    coq_case(r) -> str; oracle(r) -> None | (message, finding_key|None); nontrivial(r) -> bool
+    key(r) -> hashable identity of the case (distinctness)."""
+
+    def __init__(self, name, module, what, n_quick, n_thorough, driver, coq_case, oracle,
+                 nontrivial, key=None, describe=None, shard=300, corpus=None, extra_args=()):
+        self.name, self.module, self.what = name, module, what
+        self.n_quick, self.n_thorough = n_quick, n_thorough
+        self.driver, self.coq_case, self.oracle, self.nontrivial = driver, coq_case, oracle, nontrivial
+        self.key = key or (lambda r: json.dumps([r.get('cfg'), r.get('events')], sort_keys=True, default=str))
+        self.describe = describe or (lambda r: {k: r.get(k) for k in ('cfg', 'strategy', 'verdict', 'outcome', 'events')})
+        self.shard = shard
+        self.corpus = corpus
+        self.extra_args = list(extra_args)
+
+
+def generic_check(prop, tier, seed, parts, trusted, assume, rule, replay=None, model_note='',
+                  extra_cov=None, post=None):
+    t0 = time.time()
+    out = Outcome(prop)
+    aud = audit(prop)
+    work = VERIF / 'work'
+    work.mkdir(exist_ok=True)
+    for p in aud['problems']:
+        out.violation('proof obligation not discharged: ' + p,
+                      {'stage': 'proof', 'theorems': aud['theorems'], 'problem': p}, found_input=False)
+    total = validated = mism_n = 0
+    distinct = set()
+    samples = []
+    dist = {}
+    all_results = {}
+    for part in parts:
+        n = part.n_quick if tier == 'quick' else part.n_thorough
+        resf = work / f'{prop}_{part.name}_{seed}_{os.getpid()}.json'
+        args = [part.what, str(seed), str(n), str(resf)] + part.extra_args
+        corpus = part.corpus or (VERIF / 'corpus' / f'{prop}_{part.name}.json')
+        if replay:
+            rp = json.loads(open(replay).read())
+            if rp.get('part') not in (None, part.name):
+                continue
+            tmpc = work / f'{prop}_replay_corpus.json'
+            tmpc.write_text(json.dumps([rp['case']] if 'case' in rp else []))
+            args = [part.what, str(seed), '0', str(resf)] + part.extra_args + [str(tmpc)]
+        elif Path(corpus).exists():
+            args.append(str(corpus))
+        rc, so, se = run_impl(part.module, args, timeout=900 if tier == 'quick' else 5400)
+        results = []
+        if rc == 0 and resf.exists():
+            results = json.loads(resf.read_text())
+        else:
+            out.violation(f'implementation harness ({part.name}) failed rc={rc}: {se[-600:]}',
+                          {'stage': 'impl-harness', 'part': part.name, 'stderr': se[-3000:], 'stdout': so[-1000:]},
+                          found_input=False)
+        try:
+            resf.unlink()
+        except FileNotFoundError:
+            pass
+        all_results[part.name] = results
+        total += len(results)
+        orc_bad = set()
+        for i, r in enumerate(results):
+            v = part.oracle(r)
+            if v:
+                msg, key = v
+                orc_bad.add(i)
+                out.violation(f'oracle[{part.name}]: {msg}',
+                              {'stage': 'oracle', 'part': part.name, 'case': replay_case(r), 'run': part.describe(r),
+                               'verdict': msg, 'how': f'./check {prop} --replay <this file>'}, key=key)
+        if results and part.driver and not aud['problems']:
+            bad, problem = tv_eval(prop, part.driver, [part.coq_case(r) for r in results], shard=part.shard)
+            if problem:
+                out.violation(f'correspondence[{part.name}] could not be evaluated: ' + problem,
+                              {'stage': 'correspondence', 'part': part.name, 'problem': problem}, found_input=False)
+            else:
+                validated += len(results) - len(bad)
+            mism_n += len(bad)
+            for i, code in bad:
+                if i in orc_bad:
+                    continue
+                r = results[i]
+                out.violation(f'model/implementation correspondence broken ({part.driver}.check_case code {code}): the '
+                              f'logged run of the implementation is not a run of the Coq model; the property oracle '
+                              f'accepts this run, so no failing input was found',
+                              {'stage': 'correspondence', 'part': part.name, 'code': code, 'case': replay_case(r),
+                               'run': part.describe(r), 'theorem_or_correspondence': f'{part.driver}.check_case'},
+                              found_input=False)
+        for r in results:
+            if part.nontrivial(r):
+                distinct.add(part.name + part.key(r))
+            k = f"{part.name}:{r.get('strategy', '-')}:{r.get('verdict', '-')}"
+            dist[k] = dist.get(k, 0) + 1
+        samples += [part.describe(r) for r in results[:2]]
+    cov = {
+        'obligations': aud['obligations'], 'discharged': aud['discharged'], 'checker_cmd': aud['checker_cmd'],
+        'trusted_base': trusted, 'theorems': aud['theorems'], 'print_assumptions': aud['assumptions'],
+        'evaluations': total, 'distinct_nontrivial': len(distinct),
+        'traces_validated_against_impl': validated, 'correspondence_mismatches': mism_n,
+        'rule': rule, 'distribution': dist, 'samples': samples, 'model_note': model_note,
+    }
+    if post:
+        post(all_results, out, cov)
+    if extra_cov:
+        cov.update(extra_cov)
+    rc = out.emit()
+    cov['known_findings_seen'] = {k: v['count'] for k, v in out.known_hits.items()}
+    write_evidence(prop, tier, seed, cov, assume, time.time() - t0, len(out.violations))
+    return rc
+
+
+def replay_case(r):
+    """what is needed to re-execute this run: configuration + scheduler decisions"""
+    return {'cfg': r.get('cfg'), 'decisions': r.get('decisions'), 'strategy': r.get('strategy')}
